@@ -16,6 +16,14 @@ WITNESSES = [
     # (rule id, properties, file, configs allowed, doc)
     ('R-WITNESS-POLICY', ['C17'], 'policy.cpp', None,
      'type-level witness: the execution policy bulk_transform reports upstream equals the meet (unsequenced iff both, parallel iff both) of its function\'s policy and the policy its receiver permits, for all 16 combinations, stacked transforms and bulk_join'),
+    ('R-WITNESS-QUERIES', ['C12', 'C04', 'C11'], 'queries.cpp', None,
+     'type-level witness: for 29 adaptor/child positions (then, upon_*, let_*, sequence, when_all, finally, stop_when, materialize, into_variant, repeat/retry, unstoppable, with_query_value, on; depth <= 2; also through the debug-only _inject wrapper) a probe child sees the consumer\'s answers to a user-defined query, get_scheduler, get_allocator and get_stop_token, except for the single query the adaptor is documented to replace'),
+    ('R-WITNESS-STOPTRAIT', ['C03', 'C04', 'C12'], 'stop_traits.cpp', None,
+     'type-level witness: is_stop_never_possible_v is true exactly for tokens whose constexpr stop_possible() returns false (unstoppable_token) and false for inplace_stop_token and for tokens whose constexpr stop_possible() returns true; the inplace_stop_token_adapter keeps its forwarding state for every stoppable token'),
+    ('R-WITNESS-NOEXCEPT', ['C09', 'C08', 'C02'], 'noexcept_honesty.cpp', None,
+     'type-level witness: spawn_detached() is not noexcept when it has to allocate the operation state (bad_alloc must propagate out of spawn instead of terminating)'),
+    ('R-WITNESS-NOEXCEPT-CORO', ['C10', 'C05'], 'noexcept_coro.cpp', ['d20', 'r20', 'v20'],
+     'type-level witness (C++20): the receiver storing a co_awaited value is noexcept exactly when constructing the value from the arguments actually passed cannot throw'),
 ]
 
 
@@ -37,16 +45,23 @@ def _mk(rid, props, fname, cfgs, doc):
         rc, out = compile_witness(path, F.config, repo)
         failed = []
         others = []
-        for line in out.splitlines():
+        lines = out.splitlines()
+        for li, line in enumerate(lines):
             m = re.search(r'^(.*?):(\d+):\d+: error: (.*)$', line)
             if not m: continue
             file, ln, msg = m.group(1), m.group(2), m.group(3)
+            # the instantiation notes that follow name the adaptor position (vp::in_<adaptor>)
+            where = ''
+            for l2 in lines[li + 1: li + 40]:
+                if ' error: ' in l2: break
+                w = re.search(r'vp::in_(\w+)', l2)
+                if w: where = w.group(1); break
             sm = re.search(r"static(?:_assert| assertion) failed.*?[\"'](W-[^\"']*)", msg)
-            if sm: failed.append((file, ln, sm.group(1)))
-            else: others.append((file, ln, msg))
+            if sm: failed.append((file, ln, sm.group(1) + ((' [child position: %s]' % where) if where else '')))
+            else: others.append((file, ln, msg + ((' [child position: %s]' % where) if where else '')))
         # expanded macro CHECK(...) rows: count instantiations by counting W- messages present after preprocessing is
         # overkill; report the number of static_assert statements and macro rows textually
-        rows = len(re.findall(r'^\s*(CHECK2?|ROW|EXPECT_\w+)\s*\(', src, re.M))
+        rows = len(re.findall(r'^\s*(CHECK2?|ROW|EXPECT_\w+|check)\s*\(', src, re.M))
         for i in range(max(1, n_asserts + rows)):
             run.inst('%s witness #%d' % (fname, i + 1), 'static_assert holds', key=(fname, i))
         for file, ln, msg in failed:
